@@ -125,6 +125,62 @@ theorem grid_in_range_fixed (A W x r' : Rat) (hW : 0 < W) (hlo : A - W ≤ x) (h
     0 ≤ mantissa r' ∧ mantissa r' < 2 ^ 52 :=
   (mantissa_range_mono r' r' (rescale_margin _ r' (rescale_range_fixed A W x hW hlo hhi) he)).1
 
+/-- A7 (shared grid scale `G ≥ W`, repaired parameters): every queried position maps into `(1, 15/8]`;
+more precisely at least `W/(8G)` above 1. -/
+theorem rescaleG_range_fixed (A W G x : Rat) (hW : 0 < W) (hG : W ≤ G) (hlo : A - W ≤ x) (hhi : x ≤ A + 2 * W) :
+    1 + W / (8 * G) ≤ rescaleExactG (3 / 2) 4 A W G x ∧ rescaleExactG (3 / 2) 4 A W G x ≤ 15 / 8 := by
+  have hG0 : 0 < G := lt_of_lt_of_le hW hG
+  have key : rescaleExactG (3 / 2) 4 A W G x = 1 + (x - A + 3 / 2 * W) / (4 * G) := by
+    unfold rescaleExactG; field_simp; ring
+  rw [key]
+  constructor
+  · have : W / (8 * G) ≤ (x - A + 3 / 2 * W) / (4 * G) := by
+      rw [div_le_div_iff₀ (by positivity) (by positivity)]
+      nlinarith
+    linarith
+  · have h1 : (x - A + 3 / 2 * W) / (4 * G) ≤ (7 / 2 * W) / (4 * G) := by
+      apply div_le_div_of_nonneg_right _ (by positivity : (0 : Rat) ≤ 4 * G); linarith
+    have h2 : (7 / 2 * W) / (4 * G) ≤ 7 / 8 := by
+      rw [div_le_iff₀ (by positivity)]; nlinarith
+    linarith
+
+/-- A7': with `G = W` the generalised map is the per-axis one -/
+theorem rescaleExactG_self (pad span A W x : Rat) : rescaleExactG pad span A W W x = rescaleExact pad span A W x := rfl
+
+/-- A8: an evaluation error that is at most the distance to 1 and at most 1/16 keeps a value of `(1, 15/8]` inside `[1, 2)` -/
+theorem rescaleG_margin (r r' : Rat) (hr : 1 < r ∧ r ≤ 15 / 8) (he : |r' - r| ≤ min (r - 1) (1 / 16)) :
+    1 ≤ r' ∧ r' < 2 := by
+  obtain ⟨h1, h2⟩ := hr
+  obtain ⟨e1, e2⟩ := abs_le.mp he
+  have m1 := min_le_left (r - 1) (1 / 16)
+  have m2 := min_le_right (r - 1) (1 / 16)
+  constructor <;> linarith
+
+/-- composition for the shared scale: mantissa in `[0, 2^52)` -/
+theorem gridG_in_range_fixed (A W G x r' : Rat) (hW : 0 < W) (hG : W ≤ G) (hlo : A - W ≤ x) (hhi : x ≤ A + 2 * W)
+    (he : |r' - rescaleExactG (3 / 2) 4 A W G x| ≤ min (rescaleExactG (3 / 2) 4 A W G x - 1) (1 / 16)) :
+    0 ≤ mantissa r' ∧ mantissa r' < 2 ^ 52 := by
+  have hr := rescaleG_range_fixed A W G x hW hG hlo hhi
+  have hG0 : 0 < G := lt_of_lt_of_le hW hG
+  have hpos : 0 < W / (8 * G) := by positivity
+  exact (mantissa_range_mono r' r' (rescaleG_margin _ r' ⟨by linarith [hr.1], hr.2⟩ he)).1
+
+/-- the shared grid width of an active axis dominates the axis' own width (dim = 1, 2, 3) -/
+theorem gridWidth_ge (dim : Nat) (hd : dim = 1 ∨ dim = 2 ∨ dim = 3) (w0 w1 w2 : Rat) :
+    w0 ≤ gridWidth true dim w0 w1 w2 0 ∧ w1 ≤ gridWidth true dim w0 w1 w2 1 ∧ w2 ≤ gridWidth true dim w0 w1 w2 2 := by
+  rcases hd with rfl | rfl | rfl
+  · simp [gridWidth]
+  · simp [gridWidth]
+  · simp [gridWidth]
+
+/-- all active axes get the SAME grid width: the map to the grid is a similarity on the active subspace -/
+theorem gridWidth_shared (dim : Nat) (w0 w1 w2 : Rat) (i j : Nat) (hi : i < dim) (hj : j < dim) :
+    gridWidth true dim w0 w1 w2 i = gridWidth true dim w0 w1 w2 j := by
+  unfold gridWidth
+  have h1 : ¬ (i ≥ dim) := by omega
+  have h2 : ¬ (j ≥ dim) := by omega
+  simp [h1, h2]
+
 /-- non-vacuity: unit box, generator on the lower wall; pinned parameters give exactly 2, the repaired ones 15/8. -/
 example : rescaleExact 1 3 0 1 (mirrorHigh 0 1 0) = 2 ∧ rescaleExact (3 / 2) 4 0 1 (mirrorHigh 0 1 0) = 15 / 8 := by
   constructor <;> norm_num [rescaleExact, mirrorHigh]
@@ -187,6 +243,48 @@ theorem insphere_consistent (a b c d v : I3 α) :
   · rw [inSphereDet_swap_bc, orient_swap_bc]; ring
   · rw [inSphereDet_swap_cd, orient_swap_cd]; ring
 
+/-! ### similarity invariance (why the grid must use ONE scale on all active axes, fix `29187d1`) -/
+
+/-- uniform scaling of all five points by `k` multiplies the determinant by `k^5` … -/
+theorem inSphereDet_scale (k : α) (a b c d v : I3 α) :
+    inSphereDet ⟨k * a.c0, k * a.c1, k * a.c2⟩ ⟨k * b.c0, k * b.c1, k * b.c2⟩ ⟨k * c.c0, k * c.c1, k * c.c2⟩
+        ⟨k * d.c0, k * d.c1, k * d.c2⟩ ⟨k * v.c0, k * v.c1, k * v.c2⟩
+      = k ^ 5 * inSphereDet a b c d v := by
+  simp only [inSphereDet, bigInt, det3, det2]
+  ring
+
+/-- … and the orientation by `k^3`, so `inSphereDet * orient` (what decides "inside") by `k^8 ≥ 0` -/
+theorem orient_scale (k : α) (a b c d : I3 α) :
+    orient ⟨k * a.c0, k * a.c1, k * a.c2⟩ ⟨k * b.c0, k * b.c1, k * b.c2⟩ ⟨k * c.c0, k * c.c1, k * c.c2⟩
+        ⟨k * d.c0, k * d.c1, k * d.c2⟩ = k ^ 3 * orient a b c d := by
+  simp only [orient, bigInt, det3, det2]
+  ring
+
+/-- translation of all five points leaves the determinant unchanged -/
+theorem inSphereDet_translate (t a b c d v : I3 α) :
+    inSphereDet ⟨a.c0 + t.c0, a.c1 + t.c1, a.c2 + t.c2⟩ ⟨b.c0 + t.c0, b.c1 + t.c1, b.c2 + t.c2⟩
+        ⟨c.c0 + t.c0, c.c1 + t.c1, c.c2 + t.c2⟩ ⟨d.c0 + t.c0, d.c1 + t.c1, d.c2 + t.c2⟩
+        ⟨v.c0 + t.c0, v.c1 + t.c1, v.c2 + t.c2⟩ = inSphereDet a b c d v := by
+  simp only [inSphereDet, bigInt, det3, det2]
+  ring
+
+/-- a per-axis scaling of the unused axis only (1D/2D: all five points share… no, the mirror images differ there):
+scaling the LAST axis by `m` while the first two share `k` keeps the sign as long as the five points differ along the
+last axis only through mirror images — the general statement the code needs is the 3D one above; for 2D the z-scale
+enters as follows: if `a b c v` have the same last coordinate and `d` is any point, the determinant is
+`(d.c2 - a.c2)` times an expression that does not involve the last axis otherwise -/
+theorem inSphereDet_planar (a b c d v : I3 α) (hb : b.c2 = a.c2) (hc : c.c2 = a.c2) (hv : v.c2 = a.c2) :
+    inSphereDet a b c d v =
+      (d.c2 - a.c2) *
+        ( (b.c0 - a.c0) * ((c.c1 - a.c1) * ((v.c0 - a.c0) * (v.c0 - a.c0) + (v.c1 - a.c1) * (v.c1 - a.c1))
+                         - (v.c1 - a.c1) * ((c.c0 - a.c0) * (c.c0 - a.c0) + (c.c1 - a.c1) * (c.c1 - a.c1)))
+        - (b.c1 - a.c1) * ((c.c0 - a.c0) * ((v.c0 - a.c0) * (v.c0 - a.c0) + (v.c1 - a.c1) * (v.c1 - a.c1))
+                         - (v.c0 - a.c0) * ((c.c0 - a.c0) * (c.c0 - a.c0) + (c.c1 - a.c1) * (c.c1 - a.c1)))
+        + ((b.c0 - a.c0) * (b.c0 - a.c0) + (b.c1 - a.c1) * (b.c1 - a.c1))
+            * ((c.c0 - a.c0) * (v.c1 - a.c1) - (v.c0 - a.c0) * (c.c1 - a.c1)) ) := by
+  simp only [inSphereDet, bigInt, det3, det2, hb, hc, hv]
+  ring
+
 /-- B4: the `i64` subtraction of two grid coordinates in `[0, 2^52)` is exact. -/
 theorem i64_sub_exact (a b : Int) (ha : 0 ≤ a ∧ a < 2 ^ 52) (hb : 0 ≤ b ∧ b < 2 ^ 52) :
     (Int64.ofInt a - Int64.ofInt b).toInt = a - b := by
@@ -209,6 +307,20 @@ example : (Int64.ofInt 5 - Int64.ofInt (2 ^ 52 - 1)).toInt = 5 - (2 ^ 52 - 1) :=
   i64_sub_exact 5 (2 ^ 52 - 1) (by omega) (by omega)
 
 end MVoro.InSphereProofs
+
+namespace MVoro.InSphereWitness
+open MVoro Ref
+
+/-- the pinned tree rescaled every axis separately: a concrete 5-tuple whose answer flips when only the first axis is
+scaled by 2 (orientation stays positive, "outside" becomes "inside") -/
+theorem anisotropic_scaling_flips_sign :
+    (0 < orient (⟨0, 1, 3⟩ : I3 Int) ⟨2, 3, 0⟩ ⟨3, 0, 2⟩ ⟨3, 1, 1⟩ ∧
+      0 < inSphereDet (⟨0, 1, 3⟩ : I3 Int) ⟨2, 3, 0⟩ ⟨3, 0, 2⟩ ⟨3, 1, 1⟩ ⟨1, 0, 1⟩) ∧
+    (0 < orient (⟨0, 1, 3⟩ : I3 Int) ⟨4, 3, 0⟩ ⟨6, 0, 2⟩ ⟨6, 1, 1⟩ ∧
+      inSphereDet (⟨0, 1, 3⟩ : I3 Int) ⟨4, 3, 0⟩ ⟨6, 0, 2⟩ ⟨6, 1, 1⟩ ⟨2, 0, 1⟩ < 0) := by
+  decide
+
+end MVoro.InSphereWitness
 
 /-! ## C. schedule independence -/
 namespace MVoro.SchedProofs
